@@ -48,7 +48,8 @@ from pyrates.frontend.template.abc import AbstractBaseTemplate
 from pyrates.frontend.template.edge import EdgeTemplate
 from pyrates.frontend.template.node import NodeTemplate
 from pyrates.frontend.template.operator import OperatorTemplate
-from pyrates.ir.circuit import get_unique_label, CircuitIR, PyRatesException, PyRatesWarning
+from pyrates.ir.circuit import get_unique_label, CircuitIR, PyRatesException, PyRatesWarning, in_edge_indices, \
+    in_edge_vars
 from pyrates.ir.edge import EdgeIR
 from pyrates.ir.node import clear_ir_caches
 
@@ -793,6 +794,13 @@ class CircuitTemplate(AbstractBaseTemplate):
         if not edge_values:
             edge_values = {}
         scalar_shape = (1,) if vectorize else ()
+
+        # every translation starts from empty translation caches: entries that an earlier translation of this or of
+        # another template left behind (e.g. after `clear=False`) must not be merged into this network
+        clear_ir_caches()
+        OperatorTemplate.cache.clear()
+        in_edge_indices.clear()
+        in_edge_vars.clear()
 
         # turn nodes from templates into IRs
         ####################################
